@@ -383,4 +383,150 @@ theorem cubMulDxs_eq (a b : V3 R) (hb : b.c2 = 0) : cubMulDxs o nor a b = cubPro
 
 end partA
 
+/-! ## Part B: the specialised forms of fp12 = fp6[w]/(w² − v), fp6 = K[v]/(v³ − ξ), K an arbitrary commutative ring
+(K = fp2 in the library) -/
+
+section partB
+variable (inv : R → R) (hf : R) (isZero : R → Bool) (ξ : R)
+local notation "o" => rOps inv (fun x : R => hf * x) isZero
+local notation "nor" => (fun t : R => ξ * t)
+
+def v3add (a b : V3 R) : V3 R := ⟨a.c0 + b.c0, a.c1 + b.c1, a.c2 + b.c2⟩
+
+/-- product in (K[v]/(v³ − ξ))[w]/(w² − v) on coefficient vectors: quadProd over the cubic ring with ν = v -/
+def fp12Prod (a b : Fp12 R) : Fp12 R :=
+  ⟨v3add (cubProd ξ a.c0 b.c0) (cubProd ξ (cubProd ξ a.c1 b.c1) ⟨0, 1, 0⟩),
+   v3add (cubProd ξ a.c0 b.c1) (cubProd ξ a.c1 b.c0)⟩
+
+theorem Fp12.ext' {a b : Fp12 R} (h00 : a.c0.c0 = b.c0.c0) (h01 : a.c0.c1 = b.c0.c1) (h02 : a.c0.c2 = b.c0.c2)
+    (h10 : a.c1.c0 = b.c1.c0) (h11 : a.c1.c1 = b.c1.c1) (h12 : a.c1.c2 = b.c1.c2) : a = b :=
+  V2.ext' (V3.ext' h00 h01 h02) (V3.ext' h10 h11 h12)
+
+@[simp] theorem cubOps_add (a b : V3 R) : (cubOps o nor).add a b = v3Add o a b := rfl
+@[simp] theorem cubOps_sub (a b : V3 R) : (cubOps o nor).sub a b = v3Sub o a b := rfl
+
+/-- the generic fp12 multiplication of the model (Karatsuba over Karatsuba) is this product -/
+theorem fp12Mul_eq (a b : Fp12 R) : quadMul (cubOps o nor) (cubArt nor) a b = fp12Prod ξ a b := by
+  apply Fp12.ext' <;>
+  simp only [quadMul, cubOps, cubMul, cubArt, fp12Prod, v3add, cubProd, v3Add, v3Sub, rOps_add, rOps_sub, rOps_mul] <;> ring
+
+/-- sparse operand of a D-type twist line function: b = (b00, 0, 0) + (b10, b11, 0)·w -/
+def SparseD (b : Fp12 R) : Prop := b.c0.c1 = 0 ∧ b.c0.c2 = 0 ∧ b.c1.c2 = 0
+/-- sparse operand of an M-type twist line function: b = (b00, b01, 0) + (0, b11, 0)·w -/
+def SparseM (b : Fp12 R) : Prop := b.c0.c2 = 0 ∧ b.c1.c0 = 0 ∧ b.c1.c2 = 0
+
+theorem fp12MulDxs_dtype (a b : Fp12 R) (hb : SparseD b) : fp12MulDxs o nor .dtype a b = fp12Prod ξ a b := by
+  obtain ⟨h1, h2, h3⟩ := hb
+  apply Fp12.ext' <;>
+  simp only [fp12MulDxs, cubOps_add, cubOps_sub, cubMulDxs, cubArt, fp12Prod, v3add, cubProd, v3Add, v3Sub, rOps_add, rOps_sub,
+    rOps_mul, rOps_zero, h1, h2, h3] <;> ring
+
+theorem fp12MulDxs_mtype (a b : Fp12 R) (hb : SparseM b) : fp12MulDxs o nor .mtype a b = fp12Prod ξ a b := by
+  obtain ⟨h1, h2, h3⟩ := hb
+  apply Fp12.ext' <;>
+  simp only [fp12MulDxs, cubOps_add, cubOps_sub, cubMulDxs, cubArt, fp12Prod, v3add, cubProd, v3Add, v3Sub, rOps_add, rOps_sub,
+    rOps_mul, rOps_zero, h1, h2, h3] <;> ring
+
+example : SparseD (⟨⟨(5 : ℤ), 0, 0⟩, ⟨7, 11, 0⟩⟩ : Fp12 ℤ) := ⟨rfl, rfl, rfl⟩
+example : SparseM (⟨⟨(5 : ℤ), 7, 0⟩, ⟨0, 11, 0⟩⟩ : Fp12 ℤ) := ⟨rfl, rfl, rfl⟩
+
+/-! ### the cyclotomic subgroup, algebraically
+
+Write fp12 as a cubic extension of K4 = K[s]/(s² − ξ), s = w³:  α = A + C·w + B·w² with
+A = a00 + a11·s, C = a10 + a02·s, B = a01 + a12·s. The p²-power map acts on K4 as the conjugation s ↦ −s and sends w to
+γ·w with γ = ξ^((p²−1)/6) a primitive sixth root of unity (γ² − γ + 1 = 0). α^(p⁴ − p² + 1) = 1 (with α invertible) reads
+α · α^(p⁴) = α^(p²); comparing the coefficients of 1, w, w² gives (`cyc_relations_of_frobenius`, over an abstract K4)
+
+  C·B·s = A² − conj A,    A·C = B²·s + conj C,    A·B = C² − conj B,
+
+the relations Granger and Scott derive. In coordinates over K these are the six equations of `IsCyc12`
+(g0 = a00, g1 = a11, g2 = a10, g3 = a02, g4 = a01, g5 = a12 in the notation of the C comments). An element of order
+dividing p⁶ + 1 … satisfies them too, since p⁴ − p² + 1 divides p⁶ + 1. -/
+
+structure IsCyc12 (a : Fp12 R) : Prop where
+  r1a : ξ * (a.c1.c0 * a.c1.c2 + a.c0.c2 * a.c0.c1) = a.c0.c0 ^ 2 + ξ * a.c1.c1 ^ 2 - a.c0.c0
+  r1b : a.c1.c0 * a.c0.c1 + ξ * (a.c0.c2 * a.c1.c2) = 2 * a.c0.c0 * a.c1.c1 + a.c1.c1
+  r2a : a.c0.c0 * a.c1.c0 + ξ * (a.c1.c1 * a.c0.c2) = 2 * ξ * (a.c0.c1 * a.c1.c2) + a.c1.c0
+  r2b : a.c0.c0 * a.c0.c2 + a.c1.c1 * a.c1.c0 = a.c0.c1 ^ 2 + ξ * a.c1.c2 ^ 2 - a.c0.c2
+  r3a : a.c0.c0 * a.c0.c1 + ξ * (a.c1.c1 * a.c1.c2) = a.c1.c0 ^ 2 + ξ * a.c0.c2 ^ 2 - a.c0.c1
+  r3b : a.c0.c0 * a.c1.c2 + a.c1.c1 * a.c0.c1 = 2 * a.c1.c0 * a.c0.c2 + a.c1.c2
+
+/-- the identity is cyclotomic: the hypotheses are satisfiable -/
+example : IsCyc12 (7 : ℤ) ⟨⟨1, 0, 0⟩, ⟨0, 0, 0⟩⟩ := by constructor <;> norm_num
+
+/-- Granger–Scott: on the cyclotomic subgroup fp12_sqr_cyc is the squaring -/
+theorem fp12SqrCyc_eq (a : Fp12 R) (h : IsCyc12 ξ a) : fp12SqrCyc o nor a = fp12Prod ξ a a := by
+  apply Fp12.ext' <;>
+  simp only [fp12SqrCyc, fp12Prod, v3add, cubProd, rOps_add, rOps_sub, rOps_mul, rOps_sqr, rOps_dbl]
+  · linear_combination (-2 : R) * h.r1a
+  · linear_combination (-2 : R) * h.r3a
+  · linear_combination (-2 : R) * h.r2b
+  · linear_combination (-2 : R) * h.r2a
+  · linear_combination (-2 : R) * h.r1b
+  · linear_combination (-2 : R) * h.r3b
+
+/-- Karabina: the compressed squaring writes the four retained coefficients of the square and leaves the other two -/
+theorem fp12SqrPck_eq (c a : Fp12 R) (h : IsCyc12 ξ a) :
+    (fp12SqrPck o nor c a).c0.c1 = (fp12Prod ξ a a).c0.c1 ∧ (fp12SqrPck o nor c a).c0.c2 = (fp12Prod ξ a a).c0.c2 ∧
+    (fp12SqrPck o nor c a).c1.c0 = (fp12Prod ξ a a).c1.c0 ∧ (fp12SqrPck o nor c a).c1.c2 = (fp12Prod ξ a a).c1.c2 ∧
+    (fp12SqrPck o nor c a).c0.c0 = c.c0.c0 ∧ (fp12SqrPck o nor c a).c1.c1 = c.c1.c1 := by
+  refine ⟨?_, ?_, ?_, ?_, rfl, rfl⟩ <;>
+  simp only [fp12SqrPck, fp12Prod, v3add, cubProd, rOps_add, rOps_sub, rOps_mul, rOps_sqr, rOps_dbl]
+  · linear_combination (-2 : R) * h.r3a
+  · linear_combination (-2 : R) * h.r2b
+  · linear_combination (-2 : R) * h.r2a
+  · linear_combination (-2 : R) * h.r3b
+
+/-- the compressed squaring reads only the four retained coefficients of its operand -/
+theorem fp12SqrPck_congr (c a a' : Fp12 R) (h01 : a.c0.c1 = a'.c0.c1) (h02 : a.c0.c2 = a'.c0.c2) (h10 : a.c1.c0 = a'.c1.c0)
+    (h12 : a.c1.c2 = a'.c1.c2) : fp12SqrPck o nor c a = fp12SqrPck o nor c a' := by
+  simp only [fp12SqrPck, h01, h02, h10, h12]
+
+/-! #### decompression -/
+
+/-- Karabina's first relation: 4·g2·g1 = ξ·g5² + 3·g4² − 2·g3 -/
+theorem cyc_g1 (a : Fp12 R) (h : IsCyc12 ξ a) :
+    4 * a.c1.c0 * a.c1.c1 = ξ * a.c1.c2 ^ 2 + 3 * a.c0.c1 ^ 2 - 2 * a.c0.c2 := by
+  linear_combination (-a.c0.c2) * h.r1a + (-a.c1.c0) * h.r1b + (-a.c1.c1) * h.r2a + (2 - a.c0.c0) * h.r2b +
+    (-a.c0.c1) * h.r3a + (-(a.c1.c2 * ξ)) * h.r3b
+
+/-- the exceptional case g2 = 0: g3·g1 = 2·g4·g5 -/
+theorem cyc_g1_exc (a : Fp12 R) (h : IsCyc12 ξ a) (h2 : a.c1.c0 = 0) :
+    a.c0.c2 * a.c1.c1 = 2 * a.c0.c1 * a.c1.c2 := by
+  have e1 := h.r1a; have e2 := h.r1b; have e3 := h.r2a; have e4 := h.r2b; have e5 := h.r3a; have e6 := h.r3b
+  rw [h2] at e1 e2 e3 e4 e5 e6
+  linear_combination (-2 * a.c1.c1 * a.c0.c2 + a.c0.c1 * a.c1.c2) * e1 +
+    (a.c0.c0 * a.c0.c2 - 2 * a.c0.c2 - a.c0.c1 ^ 2) * e2 + (-2 * a.c1.c1 ^ 2) * e3 + (-a.c1.c1) * e4 +
+    (a.c0.c0 * a.c1.c2 - 2 * a.c1.c1 * a.c0.c1 - 2 * a.c1.c2) * e5 + (-(a.c1.c1 * a.c1.c2 * ξ)) * e6
+
+/-- the defect of Karabina's second relation g0 = ξ·(2·g1² + g2·g5 − 3·g3·g4) + 1 -/
+def g0Defect (a : Fp12 R) : R :=
+  a.c0.c0 - (ξ * (2 * a.c1.c1 ^ 2 + a.c1.c0 * a.c1.c2 - 3 * a.c0.c2 * a.c0.c1) + 1)
+
+theorem cyc_g0_mul_g3 (a : Fp12 R) (h : IsCyc12 ξ a) : a.c0.c2 * g0Defect ξ a = 0 := by
+  unfold g0Defect
+  linear_combination (a.c0.c0 * a.c0.c2 + 2 * a.c0.c2 - a.c1.c2 ^ 2 * ξ) * h.r1a +
+    (-ξ * (a.c1.c1 * a.c0.c2 - a.c0.c1 * a.c1.c2)) * h.r1b + (-a.c0.c0 * a.c1.c1 - a.c1.c1 + a.c1.c0 * a.c0.c1) * h.r2a +
+    (a.c0.c0 ^ 2 - a.c1.c0 * a.c1.c2 * ξ - 1) * h.r2b + (a.c0.c0 * a.c0.c1 - a.c1.c1 * a.c1.c2 * ξ - a.c0.c1) * h.r3a +
+    (a.c1.c2 * ξ) * h.r3b
+
+theorem cyc_g0_mul_g1 (a : Fp12 R) (h : IsCyc12 ξ a) : a.c1.c1 * g0Defect ξ a = 0 := by
+  unfold g0Defect
+  linear_combination (2 * a.c1.c1 + a.c1.c0 * a.c0.c1) * h.r1a + (-a.c0.c0 + a.c1.c0 * a.c1.c2 * ξ + 1) * h.r1b +
+    (a.c1.c0 ^ 2) * h.r2a + (a.c1.c0 * a.c0.c2 * ξ) * h.r2b + (a.c1.c0 * (a.c0.c0 - 1)) * h.r3a +
+    (ξ * (a.c1.c1 * a.c1.c0 + a.c0.c2)) * h.r3b
+
+theorem cyc_g0_mul_g4 (a : Fp12 R) (h : IsCyc12 ξ a) : a.c0.c1 * g0Defect ξ a = 0 := by
+  unfold g0Defect
+  linear_combination (a.c0.c0 * a.c0.c1 - a.c1.c1 * a.c1.c2 * ξ + 2 * a.c0.c1) * h.r1a +
+    (ξ * (a.c0.c0 * a.c1.c2 - a.c1.c1 * a.c0.c1 - a.c1.c2)) * h.r1b + (a.c0.c0 * a.c1.c0 - a.c1.c1 * a.c0.c2 * ξ + a.c1.c0) * h.r2a +
+    (ξ * (a.c0.c0 * a.c0.c2 - a.c1.c1 * a.c1.c0 - a.c0.c2)) * h.r2b + (a.c0.c0 ^ 2 - a.c1.c1 ^ 2 * ξ - 1) * h.r3a
+
+theorem cyc_g0_mul_g5 (a : Fp12 R) (h : IsCyc12 ξ a) : a.c1.c2 * g0Defect ξ a = 0 := by
+  unfold g0Defect
+  linear_combination (a.c1.c1 * a.c0.c1) * h.r1a + (a.c1.c1 * a.c1.c2 * ξ + a.c0.c1) * h.r1b + (a.c1.c1 * a.c1.c0 - a.c0.c2) * h.r2a +
+    (a.c1.c1 * a.c0.c2 * ξ + a.c1.c0) * h.r2b + (a.c0.c0 * a.c1.c1) * h.r3a + (a.c1.c1 ^ 2 * ξ + 1) * h.r3b
+
+end partB
+
 end Relic.Lemmas.Fpx
